@@ -16,7 +16,7 @@ EXPLANATION = (
     "impl's own where-clauses with the compiler's trait solver. Thread identity at run time is not observed.")
 ASSUMPTIONS = ["rustc's auto-trait checking guarantees that a !Send value is not moved to another thread unless an unsafe impl says so"]
 TRUSTED = ["rustc nightly MIR construction and trait solver", "shred-facts driver", "shredlint analyses"]
-TECHNIQUE = 'static: who-touches-thread_local inventory, pool-nesting and order of every place that runs thread-local systems (structured evaluation of the dispatch entry points), FANOUT coverage of the thread-local loops, decision table of try_into_sendable, trait-solver audit of unsafe impl Send fields (rustc_private), compile_fail witnesses'
+TECHNIQUE = 'static: chaining twin with_thread_local = add_thread_local (one call with the same arguments, or the same tabulation in place); who-touches-thread_local inventory, pool-nesting and order of every place that runs thread-local systems (structured evaluation of the dispatch entry points), FANOUT coverage of the thread-local loops, decision table of try_into_sendable, trait-solver audit of unsafe impl Send fields (rustc_private), compile_fail witnesses'
 RULE_TEXT = "one obligation per body touching a thread_local list, per ordering site, per path of try_into_sendable, per field of every unsafe auto-trait impl"
 
 ALLOWED_TOUCH = {
